@@ -7,6 +7,7 @@ themselves - option letters, format strings, the regular expressions' literal pa
 privilege-level names, the separators of the output parser - are what gets generated.
 Fails closed: any other shape raises TieBroken.
 
+`rmcp_ping` has two admitted shapes: without and with the privilege-level / cipher statements (fixes/C19-5).
 Three places of the shape may take one of two forms (the defect and its repair; which one the
 model has to follow is decided by the correspondence run, by probing the real code):
   * credentials interpolated directly, or through ONE helper method  `self.<name>(value)`;
@@ -81,6 +82,25 @@ elif self._session.auth_type == Session.AUTH_TYPE_PASSWORD:
     cmd += S6 % CRED(self._session.auth_username)
     cmd += S7 % CRED(self._session.auth_password)
 cmd += S8
+_, rc = self._run_ipmitool(cmd)
+if rc:
+    raise IpmiTimeoutError()''', '''(self)
+if self._interface_type == S0:
+    raise RuntimeError(S1)
+cmd = self.IPMITOOL_PATH
+cmd += S2 % self._interface_type
+cmd += S3 % self._session.rmcp_host
+cmd += S4 % self._session.rmcp_port
+if self._session.priv_level != Session.PRIV_LEVEL_ADMINISTRATOR:
+    cmd += self._build_ipmitool_priv_level(self._session.priv_level)
+if self._cipher is not None:
+    cmd += S5 % self._cipher
+if self._session.auth_type == Session.AUTH_TYPE_NONE:
+    cmd += S6
+elif self._session.auth_type == Session.AUTH_TYPE_PASSWORD:
+    cmd += S7 % CRED(self._session.auth_username)
+    cmd += S8 % CRED(self._session.auth_password)
+cmd += S9
 _, rc = self._run_ipmitool(cmd)
 if rc:
     raise IpmiTimeoutError()'''],
@@ -332,7 +352,7 @@ def _regex_parts(rx, kinds, what):
 
 # formats whose argument is (or may be) a string: only %s is modelled for them
 STRING_ARGS = ('fIface', 'fHost', 'fPort', 'fCipher', 'fUser', 'fPass', 'fLevel', 'pIface', 'pHost', 'pPort',
-               'pUser', 'pPass', 'oIface')
+               'pUser', 'pPass', 'oIface', 'pCipher')
 
 
 def extract():
@@ -366,6 +386,9 @@ def extract():
             d = list(difflib.unified_diff(allowed[0].split('\n'), text.split('\n'), lineterm='', n=0))
             raise TieBroken('Ipmitool.%s left the modelled shape: %s' % (name, ' | '.join(d[2:8])))
         lits[name] = ls
+        if name == 'rmcp_ping':
+            # second shape (fixes/C19-5): `-L` unless ADMINISTRATOR (ipmitool's default) and `-C` when configured
+            info['ping_opts'] = allowed.index(text) == 1
     if len(info.get('cred_forms', ())) != 1:
         raise TieBroken('rmcp_ping and _build_ipmitool_cmd treat the credentials differently')
     form = list(info['cred_forms'])[0]
@@ -393,7 +416,7 @@ def extract():
             raise TieBroken('Session.%s is not an integer constant' % k)
     return {'attrs': attrs, 'lits': lits, 'cred_form': form, 'helper': helper,
             'cipher_test': info['cipher_test'], 'depth2': info['depth2'], 'session': sconst,
-            'popen_stderr': info['popen_stderr'],
+            'popen_stderr': info['popen_stderr'], 'ping_opts': info['ping_opts'],
             'serial_redirect': lits['_build_serial_ipmitool_cmd'][3] if len(lits['_build_serial_ipmitool_cmd']) > 3 else ''}
 
 
@@ -447,9 +470,17 @@ def render(x):
         sc['PRIV_LEVEL_ADMINISTRATOR'], _cps(lv[2]), _cmt(lv[:3])))
     w('def authNone : Nat := %d' % sc['AUTH_TYPE_NONE'])
     w('def authPassword : Nat := %d' % sc['AUTH_TYPE_PASSWORD'])
-    p = L['rmcp_ping']
+    p = list(L['rmcp_ping'])
     s('pingRefused', p[0])
     f('pIface', p[2], 'ping -I'); f('pHost', p[3], 'ping -H'); f('pPort', p[4], 'ping -p')
+    w('/-- does `rmcp_ping` pass the privilege level (unless ADMINISTRATOR) and the cipher?  (fixes/C19-5) -/')
+    w('def pingOptsInSource : Bool := %s' % ('true' if x['ping_opts'] else 'false'))
+    w('def levelAdmin : Nat := %d' % sc['PRIV_LEVEL_ADMINISTRATOR'])
+    if x['ping_opts']:
+        f('pCipher', p[5], 'ping -C')
+        del p[5]
+    else:
+        w('def pCipher : Fmt := fCipher  -- rmcp_ping has no -C statement in this tree (only the intended model uses it)')
     s('pNoAuth', p[5]); f('pUser', p[6], 'ping -U'); f('pPass', p[7], 'ping -P'); s('pTail', p[8])
     t = L['_build_ipmitool_target']
     if t[0] != '' or t[1] != '':
